@@ -7,6 +7,7 @@ import (
 	"os"
 	"path/filepath"
 	"strconv"
+	"strings"
 	"time"
 
 	"github.com/glyphlang/glyph/pkg/ast"
@@ -96,6 +97,26 @@ func warnInertDeclarations(module *ast.Module) {
 	}
 }
 
+// needsInterpreter picks, from the compiler's limitations for a route, those
+// the interpreter handles better than compiled code. A call the VM cannot
+// resolve counts only if the interpreter can: a function the module defines.
+// A name neither engine knows fails the same way in both.
+func needsInterpreter(module *ast.Module, limitations []compiler.Limitation) []string {
+	var reasons []string
+	for _, l := range limitations {
+		defined := l.Callee == ""
+		for _, item := range module.Items {
+			if fn, ok := item.(*ast.Function); ok && fn.Name == l.Callee {
+				defined = true
+			}
+		}
+		if defined {
+			reasons = append(reasons, l.Construct)
+		}
+	}
+	return reasons
+}
+
 // setupRoutes handles the common logic of determining execution mode, compiling routes,
 // and setting up the router. Used by both startServer and startDevServerInternal.
 // filePath is the path to the source file, used for resolving relative module imports.
@@ -153,6 +174,12 @@ func setupRoutes(module *ast.Module, filePath string, forceInterpreter ...bool) 
 						return
 					}
 					printWarning(fmt.Sprintf("Compilation failed for %s: %v, falling back to interpreter", route.Path, compileErr))
+					useCompiler = false
+					break
+				}
+				// Compiled, but only the interpreter runs it correctly: fall back.
+				if reasons := needsInterpreter(module, c.Limitations()); len(reasons) > 0 {
+					printWarning(fmt.Sprintf("Compiled mode cannot run %s (%s), falling back to interpreter", route.Path, strings.Join(reasons, ", ")))
 					useCompiler = false
 					break
 				}
